@@ -154,7 +154,9 @@ CHECKS = {
         text="Round trip ADMG -> LV-DAG -> ADMG on every graph of the bound; simplify_latent_dag on every DAG with up to 4 labelled "
         "nodes (plus five-node DAGs) under every latent tagging: idempotence, observed nodes kept, mixed graph read off compared "
         "with the definition-based latent projection, separation among observed nodes and single-cause/effect ID verdicts "
-        "compared with oracles; evans_simplify with every additional latent subset.",
+        "compared with oracles; evans_simplify with every additional latent subset; the experimental-design consumer "
+        "(taheri_design_dag / taheri_design_admg) asked for every latent configuration of every DAG/ADMG and (cause, effect) of "
+        "the bound, each Result compared with the latent projection and the identifiability oracle.",
         note="Trusted: definition-based latent projection and separation/identifiability oracles in mc/graphs.py.",
         design="4/C16",
     ),
